@@ -331,6 +331,10 @@ class ShapelyBoundary(BoundaryDomain):
 
     def _where_on_boundary(self, points, outline):
         index = -1 * torch.ones(len(points), dtype=int)
+        # points that are within self.tol of no side (rounding errors of large
+        # coordinates) belong to the closest side
+        closest = torch.zeros(len(points), dtype=int)
+        closest_distance = torch.full((len(points),), float("inf"))
         counter = 0
         for corners in outline:
             for i in range(len(corners) - 1):
@@ -341,5 +345,10 @@ class ShapelyBoundary(BoundaryDomain):
                     distance = line.distance(point)
                     if abs(distance) <= self.tol:
                         index[k] = counter
+                    elif distance < closest_distance[k]:
+                        closest_distance[k] = distance
+                        closest[k] = counter
                 counter += 1
+        not_found = index < 0
+        index[not_found] = closest[not_found]
         return index
